@@ -47,7 +47,15 @@ PLAN = {
     "C15": {"level": "exploration", "parts": [l2(160_000, 6_000_000), sched(400_000, 8_000_000)]},
     "C17": {"level": "exploration", "parts": [sched(800_000, 16_000_000)]},
     "C18": {"level": "exploration", "parts": [sched(800_000, 16_000_000)]},
-    "C20": {"level": "fault_enumeration", "parts": [poll(64_000, 1_600_000)]},
+    "C20": {
+        "level": "fault_enumeration",
+        "parts": [poll(64_000, 1_600_000)],
+        "coverage_extra": lambda agg: {
+            "fault_points_enumerated": "for every generated case: every poll boundary 0..=awaits of the victim body x {resume, drop}",
+            "executions_per_fault_point": {k[6:]: v for k, v in agg.get("poll", {}).get("counters", {}).items() if k.startswith("fault.")},
+            "async_functions_used_as_victim": len({k for k in agg.get("poll", {}).get("counters", {}) if k.startswith("family.")}),
+        },
+    },
     "C19": {"level": "exploration", "parts": [dict(ws="real", bin="simreal", engine="diff", quick=160_000, thorough=6_000_000)], "reject": True},
     "C16": {
         "level": "exploration",
